@@ -91,9 +91,20 @@ func runC20(c *Ctx) error {
 	if c.Thorough() {
 		n = 1500
 	}
-	keys := []string{"ka", "kb", "kc", "kd"}
+	smallKeys := []string{"ka", "kb", "kc", "kd"}
+	bigKeys := append([]string{}, smallKeys...)
+	for j := 0; j < 360; j++ {
+		bigKeys = append(bigKeys, fmt.Sprintf("x%03d", j))
+	}
 	seen := map[string]bool{}
 	for i := 0; i < n; i++ {
+		// every tenth history has blocks of more records than one batch of the merge into the permanent database (333)
+		keys := smallKeys
+		big := i%10 == 7
+		if big {
+			keys = bigKeys
+			c.Count("histories", "big-blocks")
+		}
 		d := &c19db{env: env, st: leveldbstorage.NewMemStorage(), permst: leveldbstorage.NewMemStorage(),
 			mapIDs: map[string]string{}, proofID: map[string]string{}, valueID: map[string]string{}, polID: map[string]string{}, ops: map[string]util.Hash{}, stcache: (i % 2) * 100}
 		if err := d.open(); err != nil {
@@ -137,7 +148,7 @@ func runC20(c *Ctx) error {
 			case k < 7 || next == 0:
 				b := &c19block{Height: next, States: map[string]string{}, SufH: -1}
 				for _, key := range keys {
-					in := c.Chance(1, 3)
+					in := c.Chance(1, 3) || (big && len(key) == 4)
 					if isForced {
 						in = false
 						for _, fk := range forcedKeys {
@@ -162,6 +173,10 @@ func runC20(c *Ctx) error {
 					id := fmt.Sprintf("o%d", ocount)
 					b.Known = append(b.Known, id)
 					opIDs = append(opIDs, id)
+				}
+				b.DupStates = (b.SufH >= 0 || b.Policy != "") && c.Chance(1, 5)
+				if b.DupStates {
+					c.Count("histories", "block-sets-suffrage-or-policy-state-twice")
 				}
 				if err := d.write(b); err != nil {
 					return fmt.Errorf("write block %d: %w", next, err)
